@@ -257,6 +257,36 @@ fn applies(tp: &TrainParams, s: &SpeedSet) -> bool {
     })
 }
 
+
+/// posted restrictions of a route as absolute ranges (tail-end sets extended by the train length, gated sets and
+/// restrictions at or above the train's maximum speed dropped): independent of PathTpc
+pub fn posted_from_network(net: &[Link], route: &[LinkIdx], tp: &TrainParams) -> Vec<SpeedLimit> {
+    let mut posted = vec![];
+    let mut base = 0.0f64;
+    for li in route {
+        let link = &net[li.idx()];
+        if let Some(s) = pick_speed_set(link, tp) {
+            if applies(tp, s) {
+                let ladd = if s.is_head_end { 0.0 } else { tp.length.value };
+                for l in &s.speed_limits {
+                    if l.speed < tp.speed_max {
+                        posted.push(SpeedLimit { offset_start: m(l.offset_start.value + base), offset_end: m(l.offset_end.value + base + ladd), speed: l.speed });
+                    }
+                }
+            }
+        }
+        base += link.length.value;
+    }
+    posted
+}
+pub fn tightest_at(posted: &[SpeedLimit], vmax: f64, x: f64) -> f64 {
+    let mut want = vmax;
+    for l in posted {
+        if l.offset_start.value <= x && x < l.offset_end.value && l.speed.value < want { want = l.speed.value; }
+    }
+    want
+}
+
 fn sparams_tok(s: &SpeedSet) -> String {
     seq(&s.speed_params, |p| {
         format!("{} {} {}", f(p.limit_val), match p.limit_type {
